@@ -343,7 +343,9 @@ def check_student(ctx):
                         inner.left.value in (1, 1.0) and \
                         inner.right is call and call.args and \
                         V.strip_sign_erasure(call.args[0])[1]:
-                    ok = True
+                    # 2 * (1 - cdf(|t|)) is the two-sided tail in exact
+                    # arithmetic only: beyond |t| ~ 8.3 it reads 0.0
+                    ok = False
                 elif ret.value is call:
                     ok = False
             ctx.decide('SIDED', meth, f'p-value {txt(ret.value)[:60]} is '
@@ -387,6 +389,8 @@ def _check_alpha_forwarded(ctx, meth, call, helper):
                    f'decision (made with the real alpha) disagrees')
 
 
+UPPER_TAIL = {'sf', 'gammaincc', 'chdtrc', 'logsf'}
+LOWER_TAIL = {'cdf', 'gammainc', 'chdtr', 'logcdf'}
 NAN_MASKING_CALLS = {'fmin', 'fmax', 'nan_to_num', 'nanmin', 'nanmax',
                      'nansum', 'nanmean', 'nanprod', 'nanmedian',
                      'nanargmin', 'nanargmax', 'nancumsum'}
@@ -1123,21 +1127,33 @@ def check_chi2(ctx):
     if pv is not None:
         for ret in _returns(pv):
             calls = [c for c in ast.walk(ret.value) if isinstance(c, ast.Call)
-                     and call_name(c) in ('sf', 'cdf', 'isf', 'ppf')]
+                     and call_name(c) in UPPER_TAIL | LOWER_TAIL |
+                     {'isf', 'ppf'}]
             for call in calls:
                 n_tail += 1
-                if call_name(call) == 'sf' and ret.value is call:
+                why = None
+                if call_name(call) in UPPER_TAIL and ret.value is call:
                     ok = True
-                elif call_name(call) == 'cdf':
+                elif call_name(call) in LOWER_TAIL:
                     val = ret.value
-                    ok = isinstance(val, ast.BinOp) and isinstance(
+                    complement = isinstance(val, ast.BinOp) and isinstance(
                         val.op, ast.Sub) and isinstance(
                             val.left, ast.Constant) and val.left.value in (
                                 1, 1.0) and val.right is call
+                    # 1 - cdf IS the upper tail in exact arithmetic, but the
+                    # subtraction cancels: every p below 1.1e-16 reads 0 and
+                    # p-values below ~1e-8 are quantised
+                    ok = False
+                    why = ('the complement of the lower tail loses the far '
+                           'upper tail by cancellation (p < 1.1e-16 reads '
+                           '0.0: a comparison that passes at a very small '
+                           'level fails); use the survival function'
+                           if complement else 'lower tail')
                 else:
                     ok = None
                 ctx.decide('TAIL', pv, f'p-value {txt(ret.value)[:60]} is '
-                           f'the upper tail', ok, at=pv.where(ret))
+                           f'the upper tail', ok, at=pv.where(ret),
+                           detail=why)
     ctx.floor('TAIL', n_tail, 1, 'distribution call in TestChi2.pvalue')
     # SIGN-ERASE: summand squared
     chi = tst.methods.get('chi2_test')
@@ -1211,6 +1227,7 @@ def check_chi2(ctx):
     nzb = tst.methods.get('_nonzero_bins')
     if nzb is None:
         raise AnalysisError('TestChi2._nonzero_bins not found')
+    _check_loop_alias(ctx, nzb, 'MASK-TABLE')
     n_mask = 0
     for ret in _returns(nzb):
         val = ret.value
@@ -1260,6 +1277,43 @@ def check_chi2(ctx):
                        f'kept: {txt(elt)[:60]}',
                        True if const_true else None, at=nzb.where(ret))
     ctx.floor('MASK-TABLE', n_mask, 2, 'returns of _nonzero_bins')
+
+
+def _check_loop_alias(ctx, func, rule):
+    '''`x = y` inside a loop is an alias, not a copy: an augmented assignment
+    on x (`x |= ...`, `x += ...`) then modifies, IN PLACE for numpy arrays,
+    the loop-invariant y it was taken from - every later iteration starts
+    from the accumulated value and every `x` appended so far is the same
+    array (one shared mask for all the compared datasets).'''
+    parents = enclosing_chain(func.node)
+    for loop in [n for n in walk_local(func.node)
+                 if isinstance(n, (ast.For, ast.While))]:
+        aliases = {}
+        for node in ast.walk(loop):
+            if isinstance(node, ast.Assign) and len(node.targets) == 1 and \
+                    isinstance(node.targets[0], ast.Name) and isinstance(
+                        node.value, ast.Name):
+                aliases[node.targets[0].id] = node.value.id
+        assigned_in_loop = {t.id for node in ast.walk(loop)
+                            if isinstance(node, ast.Assign)
+                            for t in node.targets if isinstance(t, ast.Name)}
+        for node in ast.walk(loop):
+            if isinstance(node, ast.AugAssign) and isinstance(
+                    node.target, ast.Name) and node.target.id in aliases:
+                src = aliases[node.target.id]
+                if src in assigned_in_loop:
+                    continue        # re-computed in every iteration
+                ctx.violated(
+                    rule, func,
+                    f'{func.name}: `{node.target.id} = {src}` then '
+                    f'`{txt(node)[:40]}` inside the loop',
+                    at=func.where(node),
+                    detail=f'`{node.target.id}` is the array `{src}` itself: '
+                           f'the in-place operator accumulates over the '
+                           f'iterations and every element collected so far '
+                           f'is that one array (a bin empty for one dataset '
+                           f'is kept as soon as any other dataset has an '
+                           f'error there)')
 
 
 def _mask_tolerance(program, func, expr, depth=0):
